@@ -42,6 +42,12 @@ def structured_profile(rng, n, m):
 
 
 def make_rule(name, k, tie_breaker, zero_indexed):
+    """one rule object per configuration for the life of the worker process (reused across elections of different sizes)"""
+    from harness.common import persist_rule
+    return persist_rule(("vote", name, k, tie_breaker, zero_indexed), lambda: _make_rule(name, k, tie_breaker, zero_indexed))
+
+
+def _make_rule(name, k, tie_breaker, zero_indexed):
     from socialchoicekit import deterministic_scoring as ds, deterministic_tournament as dt
     if name == "plurality":
         return ds.Plurality(tie_breaker=tie_breaker, zero_indexed=zero_indexed)
@@ -73,7 +79,8 @@ def profile_obj(P, dtype=None):
         import hashlib
         h = int(hashlib.sha256(repr(P).encode()).hexdigest()[:4], 16) % 20
         dtype = content_dtype(P)[h]
-    return StrictCompleteProfile.of(relayout(np.array(P, dtype=dtype)))
+    from harness.common import persist
+    return persist("votes", relayout(np.array(P, dtype=dtype)), StrictCompleteProfile.of)
 
 
 def exact_scores(name, k, P, m):
@@ -135,8 +142,20 @@ def stv_possible_winners(P, m, first):
     """textbook STV on the ORIGINAL ballots: set of alternatives that can survive (all legal eliminations);
     with first=True the lowest-numbered minimal alternative is eliminated"""
     res = set()
+    seen = set()
+    budget = [30000]
+
+    class TooMany(Exception):
+        pass
 
     def go(alive):
+        key = tuple(alive)
+        if key in seen:
+            return
+        seen.add(key)
+        budget[0] -= 1
+        if budget[0] < 0:
+            raise TooMany()
         if len(alive) == 1:
             res.add(alive[0])
             return
@@ -150,7 +169,10 @@ def stv_possible_winners(P, m, first):
             cands = cands[:1]
         for d in cands:
             go([a for a in alive if a != d])
-    go(list(range(m)))
+    try:
+        go(list(range(m)))
+    except TooMany:
+        return None        # too many legal elimination sequences to enumerate (many alternatives without first places): unknown
     return res
 
 
